@@ -13,7 +13,7 @@ import build
 from extract import ExtractError, parse_spec
 
 VERIF = build.VERIF
-OUT = os.path.join(VERIF, 'out')
+OUT = os.environ.get('VERIF_OUT') or os.path.join(VERIF, 'out')
 VERUS_TIMEOUT = int(os.environ.get('VERIF_VERUS_TIMEOUT', '900'))
 VERUS_ARGS = ['--multiple-errors', '50', '--output-json', '--time', '--error-format=json']
 
@@ -98,7 +98,9 @@ def run_verus(rs_path, extra=None):
     r = {'rc': rc, 'timed_out': timed_out, 'out_json': slim(oj), 'diags': [slim_diag(d) for d in diags if d.get('level') in ('error', 'warning', 'note')],
          'wall_s': round(wall, 2), 'cmd': ' '.join(cmd), 'cache': False, 'stderr_tail': se[-2000:] if oj is None else ''}
     if not timed_out:
-        json.dump(r, open(cpath, 'w'))
+        tmp = cpath + '.%d.tmp' % os.getpid()
+        json.dump(r, open(tmp, 'w'))
+        os.replace(tmp, cpath)
     return r
 
 
@@ -442,8 +444,9 @@ def main(argv):
         'wall_s': round(time.time() - t0, 2),
         'violations': len(violations) if rc == 1 else 0,
     }
-    os.makedirs(os.path.join(VERIF, 'evidence'), exist_ok=True)
-    json.dump(ev, open(os.path.join(VERIF, 'evidence', pid + '.json'), 'w'), indent=1)
+    evdir = os.environ.get('VERIF_EVIDENCE_DIR') or os.path.join(VERIF, 'evidence')
+    os.makedirs(evdir, exist_ok=True)
+    json.dump(ev, open(os.path.join(evdir, pid + '.json'), 'w'), indent=1)
     for ln in out_lines:
         print(ln)
     if rc == 0:
